@@ -914,3 +914,17 @@ pub fn def(ctx: &Ctx) -> PropertyDef {
         sections,
     }
 }
+
+/// Entry point for the libFuzzer target: the same check without known-finding suppression.
+pub fn check_scalar_strict(c: &SCase) -> Result<(), String> {
+    let mut obs = Obs::new(
+        "C07",
+        std::sync::Arc::new(crate::engine::KnownFindings::default()),
+        true,
+    );
+    check_scalar(c, &mut obs)
+}
+
+pub fn case_json(c: &SCase) -> String {
+    serde_json::json!({"property": "C07", "section": "scalar-float", "case": c}).to_string()
+}
